@@ -6,7 +6,8 @@
 
   * `g72x_tables_extracted`  the transcribed tables and the block geometry equal the arrays extracted by execution
   * `g72x_state_inv`         every state reachable from `private_init_state` by encoding any samples / decoding any codes:
-                             544 ≤ yu ≤ 5120, 34816 ≤ yl ≤ 327680 (the C `long` never overflows), 0 ≤ ap ≤ 512, six b / dq
+                             544 ≤ yu ≤ 5120, 34816 ≤ yl ≤ 327680 (the C `long` never overflows), 0 ≤ ap ≤ 512,
+                             |a[1]| ≤ 12288 and |a[0]| ≤ 15360 − a[1] (LIMC / LIMD: the stable region of the pole predictor), six b / dq
   * `g72x_step_size_range`   544 ≤ y ≤ 5120 in every reachable state
   * `g72x_encode_safe`, `g72x_decode_safe`   in every reachable state, for every input sample / every code byte: the index into
                              `_dqlntab`, `_witab`, `_fitab` is inside the table, the ANTILOG shift count 14 − dex is in [0, 14],
